@@ -397,7 +397,7 @@ type c16Job struct {
 func c16Plans(thorough bool) ([]c16Plan, int) {
 	bigBound := 3
 	if thorough {
-		bigBound = 4
+		bigBound = 5
 	}
 	var plans []c16Plan
 	for hs := 1; hs <= 3; hs++ {
